@@ -138,8 +138,14 @@ var failClasses = []failClass{
 		s.Spec.PostJWS = func(j string) string {
 			t, _ := tamperSegment(j, 2, func(b []byte) []byte {
 				half, k := len(b)/2, fw.Pick(h.r, []int{1, 1, 2, 16})
-				if h.r.Chance(1, 4) {
+				switch h.r.Intn(6) {
+				case 0:
 					return append(b, make([]byte, 2*k)...)
+				case 1:
+					// one more octet behind the two integers (a recovery id, any other value), or in front of them
+					return append(b, fw.Pick(h.r, []byte{0, 1, 27, 28, 0x5a, 0xff}))
+				case 2:
+					return append([]byte{fw.Pick(h.r, []byte{0, 0x30, 27})}, b...)
 				}
 				out := append(make([]byte, k), b[:half]...)
 				out = append(out, make([]byte, k)...)
